@@ -27,6 +27,7 @@ package api
 //@ func accessControlHandler$1
 //@   attr modular
 //@   requires req != nil && h != nil
+//@   assert-at call var.isAllowedAddress decided-on-the-address-of-the-connection-itself: arg0 == req.RemoteAddr
 //@   assert-at call ServeHTTP served-only-if-the-origin-is-allowed: lastresult("isAllowedAddress")
 //@   assert-at call OtherErrorHandler forbidden-origin-gets-403: !lastresult("isAllowedAddress") && arg3 == 403
 
